@@ -436,11 +436,67 @@ func (mp *mergeProcessor) processBlock(
 			return err
 		}
 
+		if dagBlock.Delta.IsCollection() && childBlock.Delta.IsComposite() {
+			// A collection block links to a document composite. The document may already have
+			// merged that composite (e.g. via a document level merge), or it may be missing some of
+			// its ancestors, so it must be merged like any other document commit.
+			if err := mp.mergeLinkedDocument(ctx, childBlock, link.Link); err != nil {
+				return err
+			}
+			continue
+		}
+
 		if err := mp.processBlock(ctx, childBlock, link.Link); err != nil {
 			return err
 		}
 	}
 
+	return nil
+}
+
+// mergeLinkedDocument merges the document composite linked from a collection block into its
+// document, skipping the commits that the document has already merged and including the
+// ancestors that it hasn't.
+func (mp *mergeProcessor) mergeLinkedDocument(
+	ctx context.Context,
+	block *coreblock.Block,
+	blockLink cidlink.Link,
+) error {
+	mt, err := getHeadsAsMergeTarget(ctx, keys.HeadstoreDocKey{
+		DocID:   string(block.Delta.GetDocID()),
+		FieldID: core.COMPOSITE_NAMESPACE,
+	})
+	if err != nil {
+		return err
+	}
+
+	docMP := &mergeProcessor{
+		blockLS:                   mp.blockLS,
+		encBlockLS:                mp.encBlockLS,
+		col:                       mp.col,
+		docIDs:                    mp.docIDs,
+		composites:                list.New(),
+		loadedComposites:          make(map[cid.Cid]struct{}),
+		missingEncryptionBlocks:   mp.missingEncryptionBlocks,
+		availableEncryptionBlocks: mp.availableEncryptionBlocks,
+	}
+
+	err = docMP.loadComposites(ctx, blockLink.Cid, mt)
+	if err != nil {
+		return err
+	}
+
+	for e := docMP.composites.Front(); e != nil; e = e.Next() {
+		composite := e.Value.(*coreblock.Block) //nolint:forcetypeassert
+		link, err := composite.GenerateLink()
+		if err != nil {
+			return err
+		}
+		err = mp.processBlock(ctx, composite, link)
+		if err != nil {
+			return err
+		}
+	}
 	return nil
 }
 
